@@ -9,9 +9,18 @@ use serde_json::json;
 use std::collections::{BTreeMap, BTreeSet, HashMap};
 use std::process::Command;
 
-const CORPUS_DIR: &str = "/verif/target/c19-corpus";
-const SIMC: &str = "/verif/target/repo/release/simc";
-const SHIM: &str = "/verif/target/getrandom_shim.so";
+fn target_dir() -> String {
+    std::env::var("VERIF_TARGET").unwrap_or_else(|_| "/verif/target".to_string())
+}
+fn corpus_dir() -> String {
+    format!("{}/c19-corpus", target_dir())
+}
+fn simc() -> String {
+    format!("{}/repo/release/simc", target_dir())
+}
+fn shim() -> String {
+    format!("{}/getrandom_shim.so", target_dir())
+}
 
 fn hex(b: &[u8]) -> String {
     b.iter().map(|x| format!("{x:02x}")).collect()
@@ -78,7 +87,7 @@ fn probe_order() -> String {
 /// worker process: compile every corpus file with both flags; print one line per (file, flag)
 pub fn worker(_args: &[String]) -> i32 {
     println!("PROBE {}", probe_order());
-    let mut files: Vec<_> = match std::fs::read_dir(CORPUS_DIR) {
+    let mut files: Vec<_> = match std::fs::read_dir(corpus_dir()) {
         Ok(rd) => rd.filter_map(|e| e.ok()).map(|e| e.path()).collect(),
         Err(_) => return 2,
     };
@@ -96,18 +105,18 @@ pub fn run(rep: &Report) -> i32 {
     let quick = rep.is_quick();
     let seeds: u64 = if quick { 8 } else { 64 };
     let corpus = corpus(quick);
-    let _ = std::fs::remove_dir_all(CORPUS_DIR);
-    if std::fs::create_dir_all(CORPUS_DIR).is_err() {
+    let _ = std::fs::remove_dir_all(corpus_dir());
+    if std::fs::create_dir_all(corpus_dir()).is_err() {
         rep.machinery("cannot create the corpus directory");
         return rep.finish("", &[], false);
     }
     for (n, t) in &corpus {
-        if std::fs::write(format!("{CORPUS_DIR}/{n}"), t).is_err() {
+        if std::fs::write(format!("{}/{n}", corpus_dir()), t).is_err() {
             rep.machinery("cannot write a corpus file");
         }
     }
-    if !std::path::Path::new(SIMC).exists() || !std::path::Path::new(SHIM).exists() {
-        rep.machinery(format!("{SIMC} or {SHIM} missing: run ./setup.sh (or ./check C19 ..., which builds them)"));
+    if !std::path::Path::new(&simc()).exists() || !std::path::Path::new(&shim()).exists() {
+        rep.machinery(format!("{} or {} missing", simc(), shim()) + &format!(": run ./setup.sh (or ./check C19 ..., which builds them)"));
         return rep.finish("", &[], false);
     }
     rep.set("bounds", json!({"corpus": corpus.len(), "hash_seeds": seeds, "in_process": "3 compilations x 4 threads per (program, flag)", "simc_runs": "every corpus file x {plain, --debug} x 2 seeds"}));
@@ -146,7 +155,7 @@ pub fn run(rep: &Report) -> i32 {
         let seeds_v: Vec<u64> = (0..seeds).collect();
         let out = std::sync::Mutex::new(vec![]);
         crate::explore::par_for(&seeds_v, rep, 1, |_, &s| {
-            let o = Command::new(&exe).arg("worker").arg("c19").env("LD_PRELOAD", SHIM).env("VERIF_HASH_SEED", s.to_string()).output();
+            let o = Command::new(&exe).arg("worker").arg("c19").env("LD_PRELOAD", shim()).env("VERIF_HASH_SEED", s.to_string()).output();
             out.lock().unwrap().push((s, o.ok().filter(|o| o.status.success()).map(|o| String::from_utf8_lossy(&o.stdout).to_string())));
         });
         out.into_inner().unwrap()
@@ -186,12 +195,12 @@ pub fn run(rep: &Report) -> i32 {
     let jobs: Vec<(usize, bool, u64)> = (0..corpus.len()).flat_map(|i| [(i, false, 1u64), (i, true, 1), (i, false, 5), (i, true, 5)]).collect();
     crate::explore::par_for(&jobs, rep, 8, |_, &(i, debug, seed)| {
         let (n, t) = &corpus[i];
-        let mut c = Command::new(SIMC);
-        c.arg(format!("{CORPUS_DIR}/{n}"));
+        let mut c = Command::new(simc());
+        c.arg(format!("{}/{n}", corpus_dir()));
         if debug {
             c.arg("--debug");
         }
-        c.env("LD_PRELOAD", SHIM).env("VERIF_HASH_SEED", seed.to_string());
+        c.env("LD_PRELOAD", shim()).env("VERIF_HASH_SEED", seed.to_string());
         rep.transition(1);
         rep.eval(1);
         rep.trace(1);
@@ -226,7 +235,7 @@ pub fn run(rep: &Report) -> i32 {
         }
     });
     rep.sample(3, || json!({"file": corpus[0].0, "reference": reference[&(corpus[0].0.clone(), false)].chars().take(120).collect::<String>()}));
-    let _ = std::fs::remove_dir_all(CORPUS_DIR);
+    let _ = std::fs::remove_dir_all(corpus_dir());
     rep.finish(
         "state = (program, debug flag); transitions = compilations compared with the reference (in-process repeats, seeded processes, simc runs); non-trivial = shipped examples and static-family programs (several entries in the analysis maps) compared through simc",
         &["the hash-seed space (2^128) cannot be enumerated: exhaustive over the stated seed set, with the number of distinct HashMap iteration orders realised reported", "std's RandomState obtains its keys through getrandom(2), which the LD_PRELOAD shim answers from VERIF_HASH_SEED"],
